@@ -16,24 +16,26 @@ def cases(tier, seed):
     T = gen.REPRESENTATIVE_TABLES
     names = list(T)
     for h in range(150 if tier == "quick" else 3000):
-        table = T[names[h % len(names)]]
+        F_h = gen.feat(101, h)          # independent feature choices per case (gen.feat)
+        table = T[names[F_h("len_names@18", len(names))]]
         n = len(table)
-        mode = "symm" if h % 4 else "square"
-        m = 1 + h % 4
+        mode = "symm" if F_h("m4@20", 4) else "square"
+        m = 1 + F_h("m4@21", 4)
         cn = rng.sample(CELLNAMES, m)
-        extra_kind = h % 3                       # 0: no extra columns, 1: single table with an extra column, 2: per-cell tables
+        extra_kind = F_h("m3@23", 3)                       # 0: no extra columns, 1: single table with an extra column, 2: per-cell tables
         cells = []
         shared_extra = [rng.randint(0, 9) for _ in range(n)]
         for k, nm in enumerate(cn):
+            F_k = gen.feat(102, k)          # independent feature choices per case (gen.feat)
             px = [] if (h + k) % 5 == 0 else gen.random_store(rng, n, mode, maxval=7)
             extra = [] if extra_kind == 0 else (shared_extra if extra_kind == 1 else [rng.randint(0, 9) for _ in range(n)])
             cells.append({"name": nm, "px": px, "extra": extra})
         yield "sc.create", {"table": table, "mode": mode, "cells": cells,
-                            "bins_mode": "dict" if extra_kind == 2 or h % 7 == 0 else "single",
-                            "form": ["frame", "iter", "dict"][h % 3], "open": ["uri", "handle"][h % 2],
-                            "ordered": h % 4 != 2, "mergebuf": rng.choice([1, 3, 10 ** 6]),
+                            "bins_mode": "dict" if extra_kind == 2 or F_h("m7@31", 7) == 0 else "single",
+                            "form": ["frame", "iter", "dict"][F_h("m3@32", 3)], "open": ["uri", "handle"][F_h("m2@32", 2)],
+                            "ordered": F_h("m4@33", 4) != 2, "mergebuf": rng.choice([1, 3, 10 ** 6]),
                             # every 5th: float64 counts asked for through dtypes= (values are multiples of 1/4)
-                            **({"scale": 4} if h % 5 == 1 else {}), "labels": ["default", "perm", "offset"][h % 3]}
+                            **({"scale": 4} if F_h("m5@35", 5) == 1 else {}), "labels": ["default", "perm", "offset"][F_h("m3@35", 3)]}
 
 
 def run(tier, seed, only_case=None):
